@@ -63,6 +63,15 @@ class ServeTask(Task):
         # `self` is an Association: private helpers of the class that _serve_request may call are executed (real code); the
         # methods that leave the function's scope are summarised by their effect
         c.summaries["pynetdicom.association:Association.abort"] = lambda I, a, k: I.trace.append(Ev("abort"))
+
+        def gvc(I, args, kw):
+            # Association._get_valid_context by its contract (C18): SOME accepted context that suits the abstract syntax and
+            # role, or ValueError.  The context id argument is only a hint: the result may belong to a different id.
+            if I.choose(2, "_get_valid_context finds a context") == 1:
+                raise PyRaise(ExcVal("ValueError", ("no suitable presentation context",)))
+            I.trace.append(Ev("get_valid_context", tuple(args[1:]), dict(kw)))
+            return Env("some_accepted_context")
+        c.summaries["pynetdicom.association:Association._get_valid_context"] = gvc
         return c
 
     def body(self, I):
